@@ -32,7 +32,7 @@ class C05(CheckBase):
                    "memory safety / UB as observed by gcc 12 AddressSanitizer + UndefinedBehaviorSanitizer (no MSan: uninstrumented libstdc++)",
                    "an exception escaping stepcode counts as abort (std::terminate in an application)"]
 
-    n_generated = {"quick": 3, "thorough": 12}
+    n_generated = {"quick": 10, "thorough": 30}   # the shared pool of the file-based checks (p21work.P21Check.pool)
 
     def setup(self, tier):
         seed = getattr(self, "seed", None)
@@ -41,7 +41,7 @@ class C05(CheckBase):
         if getattr(self, "replay_mode", False):
             self.ss = pw.SchemaSet()
             return
-        defs = pw.schema_defs(seed, tier, self.n_generated[tier], label="c05",
+        defs = pw.schema_defs(seed, tier, self.n_generated[tier], label="pool",
                               feature_overrides={"renamed_select": False, "renamed_enum": False})
         self.ss = pw.build_schema_set(defs)
         if not self.ss.items:
